@@ -14,7 +14,11 @@ import (
 
 // C01 — protected message round trip between opposite roles of one IKE SA.
 
-var c01RoundTrip = probe.Define("C01", "roundtrip", func(t *rapid.T) protIn { return genProt(t, gen.Opts{}) },
+var c01RoundTrip = probe.Define("C01", "roundtrip", func(t *rapid.T) protIn {
+	in := genProt(t, gen.Opts{})
+	equalDirections(t, &in)
+	return in
+},
 	func(in protIn) probe.Outcome {
 		saS, err := bridge.NewSA(in.Suite, in.Keys)
 		if err != nil {
@@ -71,6 +75,9 @@ var c01RoundTrip = probe.Define("C01", "roundtrip", func(t *rapid.T) protIn { re
 		labels := append(suiteLabels(in), in.Msg.Labels()...)
 		if len(in.Entropy) > 0 {
 			labels = append(labels, "entropy:injected")
+		}
+		if bytes.Equal(in.Keys.Ai, in.Keys.Ar) || bytes.Equal(in.Keys.Ei, in.Keys.Er) {
+			labels = append(labels, "keys:same-in-both-directions")
 		}
 		return probe.Outcome{NonTrivial: true, Labels: labels}
 	})
